@@ -8,7 +8,9 @@ import sys
 import traceback
 
 sys.path.insert(0, os.path.dirname(os.path.abspath(__file__)))
+import logging
 import warnings
+logging.disable(logging.WARNING)
 warnings.simplefilter("ignore")
 import vlib  # noqa: E402
 
